@@ -100,17 +100,22 @@ def _worker(args):
                 continue
             groups.setdefault(nm, []).append(ob)
         vac = []
-        for nm, obs in groups.items():
-            feasible = False
-            for ob in obs[:6]:
+        # feasibility is a property of the path: decide it once per path, on the path's last obligation (its hypotheses
+        # include those of every earlier obligation of the path)
+        last_of_path = {}
+        for ob in all_obligations:
+            last_of_path[str(ob.meta.get("path"))] = ob
+        path_ok = {}
+
+        def feasible_path(pk):
+            if pk not in path_ok:
                 try:
-                    if not solve.hyps_refutable(ob, res.str_axioms):
-                        feasible = True
-                        break
+                    path_ok[pk] = not solve.hyps_refutable(last_of_path[pk], res.str_axioms)
                 except Exception:
-                    feasible = True
-                    break
-            if not feasible:
+                    path_ok[pk] = True
+            return path_ok[pk]
+        for nm, obs in groups.items():
+            if not any(feasible_path(str(ob.meta.get("path"))) for ob in obs):
                 vac.append(nm)
         out["vacuous"] = vac
     out["seconds"] = time.time() - t0
